@@ -23,6 +23,8 @@ TOL = 1e-7
 
 def gen(rng):
     """-> dict(base=[stmts], decisions=[atom], excl=[(d, d')], utils=[(positive?, atom, int)])"""
+    if rng.random() < 0.4:
+        return gen_interacting(rng)
     nd = rng.randint(1, 3)
     decisions = [("d%d" % i, ()) for i in range(nd)]
     excl = []        # decision ADs (?::a; ?::b) are not generated: the property text does not fix their meaning
@@ -57,6 +59,28 @@ def gen(rng):
             utils.append((True, a, rng.randint(-5, 10)))
             utils.append((False, a, rng.randint(-5, 10)))
     return dict(base=base, decisions=decisions, excl=excl, utils=utils)
+
+
+def gen_interacting(rng):
+    """Second profile: 3-5 decisions that interact through conjunctions (u :- d_i, d_j / u :- d_i, \\+d_j, sometimes with
+    a probabilistic fact), rewards on the conjunctions and costs on the single decisions: the utility landscape has
+    local optima and long improving sequences, which is what local search has to cope with."""
+    nd = rng.randint(3, 5)
+    decisions = [("d%d" % i, ()) for i in range(nd)]
+    base = [("fact", rng.choice(progs.PROBS), ("f0", ()))]
+    utils = []
+    for d in decisions:
+        if rng.random() < 0.8:
+            utils.append((True, d, rng.randint(-6, 3)))
+    for k in range(rng.randint(2, 5)):
+        h = ("u%d" % k, ())
+        i, j = rng.sample(range(nd), 2)
+        body = [(True, decisions[i]), (rng.random() < 0.7, decisions[j])]
+        if rng.random() < 0.25:
+            body.append((True, ("f0", ())))
+        base.append(("rule", h, body))
+        utils.append((True, h, rng.randint(-4, 12)))
+    return dict(base=base, decisions=decisions, excl=[], utils=utils)
 
 
 def render(case):
@@ -241,7 +265,7 @@ def check_map(seed):
 
 
 def run(pid, tier, seed):
-    n = 1500 if tier == "thorough" else 240
+    n = 6000 if tier == "thorough" else 900
     col = Collector("C21:dtproblog-vs-brute-force",
                     "%d seeded decision-theoretic programs (1-3 decisions ?::d, optionally two of them in one decision AD, "
                     "1-3 probabilistic facts, <= 1 AD, 1-3 derived atoms with 1-2 clauses of 1-2 possibly negated literals, "
